@@ -345,6 +345,15 @@ def corpus(n_schemas, seed, with_defaults=True, with_services=True):
         outer.append({"id": 11, "req": "default", "ty": b("bool"), "name": "tail"})
         defs.append({"d": "struct", "name": f"Outer{si}", "fields": outer})
         if with_services:
+            # a request struct as a framework would see it: defaults of several kinds in front of and between plain fields
+            defs.append({"d": "struct", "name": f"Req{si}", "fields": [
+                {"id": 1, "req": "default", "ty": b("i32"), "name": "page", "default": lit_int(7)},
+                {"id": 2, "req": "optional", "ty": b("string"), "name": "note"},
+                {"id": 3, "req": "required", "ty": b("i64"), "name": "z"},
+                {"id": 4, "req": "optional", "ty": b("bool"), "name": "flag", "default": {"bool": True}},
+                {"id": 5, "req": "default", "ty": b("string"), "name": "lang", "default": lit_str("en")},
+                {"id": 6, "req": "optional", "ty": lst(b("i32")), "name": "xs"},
+                {"id": 16, "req": "default", "ty": ref("Leaf1"), "name": "leaf"}]})
             defs.append({"d": "service", "name": f"Svc{si}", "methods": [
                 {"name": "ma", "ret": ref(structs[0]), "args": [
                     {"id": 1, "req": "default", "ty": ref(f"Outer{si}"), "name": "req"},
@@ -353,6 +362,9 @@ def corpus(n_schemas, seed, with_defaults=True, with_services=True):
                 {"name": "mb", "ret": "void", "args": [{"id": 1, "req": "default", "ty": chunk[0][1], "name": "x"},
                                                         {"id": 3, "req": "default", "ty": b("bool"), "name": "b"}]},
                 {"name": "mc", "ret": b("string"), "args": []},
+                # the scenario the argument-type shortcut of keep_unknown_fields is designed for: ONE struct argument, so that the
+                # request struct is the last thing in the Args struct and the Args struct the last thing in the buffer
+                {"name": "md", "ret": "void", "args": [{"id": 1, "req": "default", "ty": ref(f"Req{si}"), "name": "req"}]},
             ]})
         schemas.append(synthesize({"name": f"c{si}", "defs": defs}))
     return schemas
@@ -411,6 +423,45 @@ def defaults_schema():
     return synthesize({"name": "dfl", "defs": defs})
 
 
+def struct_literal_schema():
+    """Struct literals as default values (built WITHOUT keep_unknown_fields only: with it the emitted literal misses the
+    `_unknown_fields` member, known finding C14-struct-literal-misses-unknown-fields).  Field names in every naming style, so
+    that the literal's keys (IDL names) differ from the generated Rust identifiers."""
+    defs = base_defs()
+    defs.append({"d": "struct", "name": "Limits", "fields": [
+        {"id": 1, "req": "optional", "ty": b("string"), "name": "userName"},
+        {"id": 2, "req": "default", "ty": b("i32"), "name": "maxCount"},
+        {"id": 3, "req": "optional", "ty": b("i32"), "name": "retries", "default": lit_int(2)},
+        {"id": 4, "req": "default", "ty": b("bool"), "name": "type"},
+        {"id": 5, "req": "default", "ty": lst(b("i32")), "name": "FOO_BAR"},
+        {"id": 6, "req": "default", "ty": b("double"), "name": "x_ratio"}]})
+    full = {"struct": [["userName", lit_str("bob")], ["maxCount", lit_int(3)], ["retries", lit_int(5)], ["type", {"bool": True}],
+                       ["FOO_BAR", {"list": [lit_int(1), lit_int(2)]}], ["x_ratio", lit_dbl("0.5")]]}
+    part = {"struct": [["maxCount", lit_int(9)], ["userName", lit_str("al")], ["type", {"bool": False}], ["FOO_BAR", {"list": []}],
+                       ["x_ratio", {"int": 2}], ["retries", lit_int(2)]]}
+    defs.append({"d": "struct", "name": "Holder", "fields": [
+        {"id": 1, "req": "default", "ty": ref("Limits"), "name": "limits", "default": full},
+        {"id": 2, "req": "optional", "ty": ref("Limits"), "name": "maybe", "default": part},
+        {"id": 3, "req": "default", "ty": b("i32"), "name": "plain"},
+        {"id": 4, "req": "required", "ty": ref("Limits"), "name": "must", "default": full}]})
+    defs.append({"d": "struct", "name": "Outer2", "fields": [
+        {"id": 1, "req": "default", "ty": ref("Leaf1"), "name": "leaf", "default": {"struct": [["a", lit_int(4)], ["s", lit_str("x")], ["flag", {"bool": True}]]}},
+        {"id": 2, "req": "default", "ty": lst(ref("Holder")), "name": "hs"}]})
+    # a literal that does NOT list every member: the unlisted members keep the defaults the IDL gives them (known finding
+    # C20-struct-literal-drops-member-defaults; the definitions carry a quarantine tag so that only they match it)
+    defs.append({"d": "struct", "name": "Limits2", "fields": [
+        {"id": 1, "req": "optional", "ty": b("string"), "name": "userName"},
+        {"id": 2, "req": "default", "ty": b("i32"), "name": "maxCount", "default": lit_int(4)},
+        {"id": 3, "req": "optional", "ty": b("i32"), "name": "retries", "default": lit_int(2)},
+        {"id": 4, "req": "required", "ty": b("i32"), "name": "need", "default": lit_int(8)}]})
+    defs.append({"d": "struct", "name": "PartHolder", "q": "struct-literal-partial", "fields": [
+        {"id": 1, "req": "default", "ty": ref("Limits2"), "name": "limits", "default": {"struct": [["userName", lit_str("bob")]]}},
+        {"id": 2, "req": "default", "ty": b("i32"), "name": "plain"}]})
+    sch = synthesize({"name": "dsl", "defs": defs})
+    sch["no_keep"] = True
+    return sch
+
+
 if __name__ == "__main__":
     import sys
     for s in corpus(2, 1):
@@ -447,6 +498,8 @@ def _lit_tla(l, consts, enums):
         return {"list": [_lit_tla(x, consts, enums) for x in l["list"]]}
     if "map" in l:
         return {"map": [[_lit_tla(k, consts, enums), _lit_tla(v, consts, enums)] for k, v in l["map"]]}
+    if "struct" in l:
+        return {"struct": [[k, _lit_tla(v, consts, enums)] for k, v in l["struct"]]}
     raise ValueError(l)
 
 
